@@ -230,7 +230,16 @@ def registryOK (env : Env) (kinds : List (Nat × PduKind)) (k : PduKind) (reg : 
     (tag-level part: C01's `Valid` refines it) -/
 def leafOK (app lvt : Nat) (data : Bytes) : Bool :=
   (match leafCheck app ⟨.app, app, lvt, data⟩ with | .ok () => true | .error _ => false) &&
-  (if app = 1 then data.isEmpty else lvt == data.length)
+  (if app = 1 then data.isEmpty else lvt == data.length) &&
+  decide (lvt < 4294967296)        -- fits the 32-bit length field of a tag header (C02's domain)
+
+/-- C02's `WF` as a computation: what `Tag.encode` can put on the wire and `Tag.decode` gives back -/
+def tagWFb (t : Tag) : Bool :=
+  decide (t.num ≤ 255) && decide (t.lvt < 4294967296) &&
+  match t.cls with
+  | .app => if t.num = 1 then t.data.isEmpty else t.lvt == t.data.length
+  | .ctx => t.lvt == t.data.length
+  | .opening | .closing => t.lvt == 0 && t.data.isEmpty
 
 def conformsRef (env : Env) (conf : Nat → Val → Bool) (r : Ref) (v : Val) : Bool :=
   match kindOf env r, v with
@@ -261,7 +270,7 @@ def conformsDef (env : Env) (conf : Nat → Val → Bool) : TyDef → Val → Bo
   | .list _ elem fixed, .list vs =>
     vs.all (conformsRef env conf elem) &&
     (match fixed with | some n => vs.length == n | none => true)
-  | .any, .tags ts => balancedFrom 0 ts
+  | .any, .tags ts => balancedFrom 0 ts && ts.all tagWFb     -- a balanced run of encodable tags
   | .nameValue dt, .seq [some (.prim lvt data), value] =>
     leafOK 7 lvt data &&
     (match value with
